@@ -109,6 +109,10 @@ func Main(m *testing.M, property string) {
 	if C.Scale <= 0 {
 		C.Scale = 1
 	}
+	if FuzzCampaign() {
+		// coordinator and workers of a native fuzz campaign count nothing and write no stats (fuzz.go)
+		C.StatsOut = ""
+	}
 	S.Property = property
 	S.hashes = map[uint64]struct{}{}
 	S.sampleSub = map[string]int{}
@@ -343,9 +347,13 @@ func witnesses[K any](p Prop[K]) bool {
 		switch {
 		case f.Status == "open" && r.Err != "":
 			line := fmt.Sprintf("KNOWN-FINDING: property=%s %s %s", C.Property, f.ID, f.What)
-			fmt.Println(line)
+			if !quiet {
+				fmt.Println(line)
+			}
 			mu.Lock()
-			S.Known = append(S.Known, line)
+			if !quiet {
+				S.Known = append(S.Known, line)
+			}
 			if f.Exclusion != "" {
 				excl[f.Exclusion] = true
 			}
@@ -472,7 +480,7 @@ func maxViol() int {
 	return n
 }
 
-func replay[K any](t *testing.T, p Prop[K]) {
+func replay[K any](t testing.TB, p Prop[K]) {
 	b, err := os.ReadFile(C.ReplayIn)
 	if err != nil {
 		fmt.Fprintf(os.Stderr, "replay: %s\n", err)
